@@ -232,6 +232,32 @@ class SimulatorBase(
 
             yield self._create_step_result(sim_state)
 
+    def _can_sample_terminal_measurements(
+        self, measurements: cirq.AbstractCircuit, qubits: Sequence[cirq.Qid]
+    ) -> bool:
+        """Whether all repetitions of the given measurements may be sampled from one final state.
+
+        With a noise model this needs that (1) the noise evolves the state deterministically in this
+        simulator, as the operations of the run prefix do, rather than by one random choice shared by
+        all repetitions, and (2) the noise left out because it follows a qubit's measurement matters to
+        no measurement: no qubit is measured again, and no noise operation acts on a measured
+        qubit together with one that is still to be measured.
+        """
+        if self.noise == devices.NO_NOISE:
+            return True
+        if not self._can_be_in_run_prefix(self.noise):
+            return False
+        measured: set[cirq.Qid] = set()
+        for moment in self.noise.noisy_moments(measurements, sorted(qubits)):
+            for op in ops.flatten_to_ops(moment):
+                if isinstance(op.gate, ops.MeasurementGate):
+                    if not measured.isdisjoint(op.qubits):
+                        return False
+                    measured.update(op.qubits)
+                elif not measured.isdisjoint(op.qubits) and not measured.issuperset(op.qubits):
+                    return False
+        return True
+
     def _run(
         self, circuit: cirq.AbstractCircuit, param_resolver: cirq.ParamResolver, repetitions: int
     ) -> dict[str, np.ndarray]:
@@ -253,15 +279,9 @@ class SimulatorBase(
         assert step_result is not None
 
         general_ops = list(general_suffix.all_operations())
-        measured_qubits = [q for op in general_ops for q in op.qubits]
-        # Sampling every measurement from one final state skips the noise that follows a qubit's
-        # measurement, which is only sound if that qubit is not measured again.
-        noise_is_skippable = self.noise == devices.NO_NOISE or len(measured_qubits) == len(
-            set(measured_qubits)
-        )
-        if noise_is_skippable and all(
+        if all(
             isinstance(op.gate, ops.MeasurementGate) for op in general_ops
-        ):
+        ) and self._can_sample_terminal_measurements(general_suffix, sim_state.qubits):
             for step_result in self._core_iterator(
                 circuit=general_suffix, sim_state=sim_state, all_measurements_are_terminal=True
             ):
